@@ -137,3 +137,39 @@ func c11ValuesHandedOver(res *Result) {
 		}
 	}
 }
+
+// c11ListsWithRoomToGrow: lists the caller built with spare capacity (make([]interface{}, n, m), append): what an
+// included template derives from such a list leaves what the including template derived from it as it was.
+func c11ListsWithRoomToGrow(res *Result) {
+	mkList := func(vals ...interface{}) []interface{} {
+		l := make([]interface{}, 0, 16)
+		return append(l, vals...)
+	}
+	cases := []struct{ name, main, part, want string }{
+		{"merge", "{% set card = classes|merge(['card']) %}{% include 'part' %}|{{ card|join(' ') }}|{{ classes|join(' ') }}", "{% set badge = classes|merge(['badge']) %}{{ badge|join(' ') }}", "ui badge|ui card|ui"},
+		{"merge-only", "{% set card = classes|merge(['card']) %}{% include 'part' with {'classes': classes} only %}|{{ card|join(' ') }}", "{% set badge = classes|merge(['badge', 'x']) %}{{ badge|join(' ') }}", "ui badge x|ui card"},
+		{"merge-function", "{% set card = merge(classes, ['card']) %}{% include 'part' %}|{{ card|join(' ') }}", "{{ merge(classes, ['badge'])|join(' ') }}", "ui badge|ui card"},
+		{"grown-in-loop", "{% set acc = classes %}{% for i in [1, 2] %}{% set acc = acc|merge([i]) %}{% endfor %}{% set mine = acc|merge(['mine']) %}{% include 'part' %}|{{ mine|join(' ') }}", "{{ acc|merge(['theirs'])|join(' ') }}", "ui 1 2 theirs|ui 1 2 mine"},
+		{"slice-then-merge", "{% set head = classes|slice(0, 1) %}{% set a = head|merge(['a']) %}{% include 'part' %}|{{ a|join(' ') }}|{{ classes|join(' ') }}", "{{ head|merge(['b'])|join(' ') }}", "ui b|ui a|ui"},
+		{"two-in-one-template", "{% set a = classes|merge(['a']) %}{% set b = classes|merge(['b']) %}{{ a|join(' ') }}|{{ b|join(' ') }}", "", "ui a|ui b"},
+	}
+	for _, tc := range cases {
+		e := twig.New()
+		if e.RegisterString("part", tc.part) != nil || e.RegisterString("main", tc.main) != nil {
+			continue
+		}
+		res.Hist["stream:c11-lists-with-room-to-grow"]++
+		for i := 0; i < 2; i++ {
+			res.Evaluations++
+			got, err := e.Render("main", map[string]interface{}{"classes": mkList("ui")})
+			if err != nil {
+				got = "error: " + err.Error()
+			}
+			if got != tc.want {
+				res.add(Finding{Kind: "oracle", Where: "c11-lists-with-room-to-grow/" + tc.name, Case: Case{"stream": "c11-lists-with-room-to-grow", "main": tc.main, "part": tc.part}, Expected: tc.want, Observed: got,
+					Detail: "classes is a Go slice of length 1 and capacity 16; nothing the included template derives from it changes what the including template holds"})
+				break
+			}
+		}
+	}
+}
